@@ -176,6 +176,9 @@ func (x *hist) subscribe(who string, subs []packet.Subscription) bool {
 }
 
 func run(r *h.Run, idx int, fs []string) {
+	if r.TooMany() {
+		return
+	}
 	rng := r.Rand(fmt.Sprintf("c11-%d", idx))
 	cl, err := bh.NewCluster()
 	if err != nil {
